@@ -74,3 +74,69 @@ registry! {
     "C19" => c19,
     "C20" => c20,
 }
+
+// ---------------------------------------------------------------------------------------------
+// corpus replay: the committed seed inputs of each libFuzzer target, run through the same
+// byte-level entry (oracle inside) by the plain binary - the quick tier of the fuzz engine
+// ---------------------------------------------------------------------------------------------
+
+pub fn corpus_dir(target: &str) -> std::path::PathBuf {
+    std::path::PathBuf::from(std::env::var("VERIF_ROOT").unwrap_or_else(|_| "/verif".to_string())).join("corpus").join(target)
+}
+
+fn hex_of(b: &[u8]) -> String {
+    b.iter().map(|x| format!("{:02x}", x)).collect()
+}
+
+fn unhex(s: &str) -> Vec<u8> {
+    (0..s.len() / 2).filter_map(|i| u8::from_str_radix(&s[2 * i..2 * i + 2], 16).ok()).collect()
+}
+
+fn corpus_run(target: &'static str, rec: &mut dyn FnMut(serde_json::Value, crate::engine::Info)) -> Result<(), (String, serde_json::Value)> {
+    let mut files: Vec<std::path::PathBuf> = match std::fs::read_dir(corpus_dir(target)) {
+        Ok(rd) => rd.filter_map(|e| e.ok()).map(|e| e.path()).filter(|p| p.is_file()).collect(),
+        Err(_) => vec![],
+    };
+    files.sort();
+    for f in files {
+        let data = std::fs::read(&f).unwrap_or_default();
+        let case = serde_json::json!({"target": target, "file": f.file_name().map(|s| s.to_string_lossy().to_string()), "hex": hex_of(&data)});
+        crate::fuzz_entry::run(target, &data).map_err(|m| (m, case.clone()))?;
+        let mut info = crate::engine::Info::default();
+        info.nt();
+        info.class(format!("corpus:{}", target));
+        rec(case, info);
+    }
+    Ok(())
+}
+
+fn corpus_replay(v: &serde_json::Value) -> Result<(), String> {
+    let target = v["target"].as_str().unwrap_or("");
+    crate::fuzz_entry::run(target, &unhex(v["hex"].as_str().unwrap_or("")))
+}
+
+macro_rules! corpus_subs {
+    ($($fname:ident, $sname:ident => $target:literal, $subname:literal);* $(;)?) => {
+        $(
+            fn $fname(_ctx: &crate::engine::Ctx, rec: &mut dyn FnMut(serde_json::Value, crate::engine::Info)) -> Result<(), (String, serde_json::Value)> {
+                corpus_run($target, rec)
+            }
+            pub fn $sname() -> Box<dyn DynSub> {
+                Box::new(crate::engine::EnumSub {
+                    name: $subname,
+                    rule: "committed seed corpus of the libFuzzer target (and any saved fuzz finding) replayed through the byte-level entry with the model oracle inside",
+                    run: $fname,
+                    replay: corpus_replay,
+                    exhaustive: false,
+                })
+            }
+        )*
+    };
+}
+
+corpus_subs! {
+    corpus_run_decode, corpus_sub_decode => "decode", "corpus-decode";
+    corpus_run_serdes, corpus_sub_serdes => "serdes", "corpus-serdes";
+    corpus_run_expand, corpus_sub_expand => "expand", "corpus-expand";
+    corpus_run_field, corpus_sub_field => "field", "corpus-field";
+}
